@@ -144,7 +144,13 @@ GRepair(variant) ==
   /\ UNCHANGED <<seq, imm, hasImm, snaps, hist, pins, big>>
 GSnap == /\ CanOp /\ snaps = {} /\ seq > 0 /\ snaps' = {seq} /\ RecW([op |-> "snap", a |-> 1, b |-> 0, c |-> 0, w |-> 0], 3)
          /\ UNCHANGED <<seq, mem, imm, hasImm, lv, nextf, hist, pins, disk, tags, big>>
-GRel == /\ CanOp /\ snaps # {} /\ snaps' = {} /\ Rec([op |-> "rel", a |-> 1, b |-> 0, c |-> 0, w |-> 0])
+\* a second, newer snapshot (never released by the script): reads through it must keep seeing the newest values of its moment
+GSnap2 == /\ CanOp /\ Cardinality(snaps) = 1 /\ seq \notin snaps /\ snaps' = snaps \cup {seq}
+          /\ ~(\E i \in 1..Len(ops) : ops[i].op = "snap" /\ ops[i].a = 2)
+          /\ RecW([op |-> "snap", a |-> 2, b |-> 0, c |-> 0, w |-> 0], 60)
+          /\ UNCHANGED <<seq, mem, imm, hasImm, lv, nextf, hist, pins, disk, tags, big>>
+Held1 == Cardinality({i \in 1..Len(ops) : ops[i].op = "snap" /\ ops[i].a = 1}) > Cardinality({i \in 1..Len(ops) : ops[i].op = "rel"})
+GRel == /\ CanOp /\ snaps # {} /\ Held1 /\ snaps' = snaps \ {MinOf(snaps)} /\ RecW([op |-> "rel", a |-> 1, b |-> 0, c |-> 0, w |-> 0], 12)
         /\ UNCHANGED <<seq, mem, imm, hasImm, lv, nextf, hist, pins, disk, tags, big>>
 GNext == \/ \E k \in Keys : GPut(k) \/ GDel(k) \/ GPutBig(k)
          \/ GFlush \/ GReopen \/ GSnap \/ GRel \/ (\E v \in 0..3 : GRepair(v))
@@ -181,11 +187,13 @@ GNextF ==
   \/ NStruct = 2 /\ MemN >= 3 /\ (GFlush \/ GReopen)
   \/ NStruct = 3 /\ (IF lv[0] # {} THEN GCompact(0, NoKey, NoKey) ELSE \E b \in Keys \cup {NoKey} : GCompact(1, b, NoKey))
   \/ NStruct = 4 /\ GRel
-  \/ NStruct = 4 /\ \E level \in 1..2 : \E b, e \in Keys \cup {NoKey} : GCompact(level, b, e)
+  \/ NStruct = 4 /\ GSnap2
+  \* (with one snapshot held, it is first released or joined by a second, newer one: reads through the newer one are checked after the compaction)
+  \/ NStruct = 4 /\ Cardinality(snaps) # 1 /\ \E level \in 1..2 : \E b, e \in Keys \cup {NoKey} : GCompact(level, b, e)
 GSpecF == GInit /\ [][GNextF]_gvars
 DumpF == IF NStruct = 5 /\ (tags \cap {"keysplit", "boundary0", "boundary1", "boundaryx", "expand", "chunked", "multiout"}) # {}
          THEN ndJsonSerialize(OutDir \o "/f" \o ToString(TLCGet("stats").traces) \o "_" \o ToString(Cardinality(tags)) \o ".ndjson",
-                              <<[tags |-> tags, ops |-> ops]>>)
+                              <<[tags |-> tags \cup (IF Cardinality(snaps) = 2 THEN {"snap2"} \cup (IF "boundaryx" \in tags THEN {"snap2boundaryx"} ELSE {}) ELSE {}), ops |-> ops]>>)
          ELSE TRUE
 GConstraintF == GBound /\ DumpF
 \* ---- a second scenario family: four level-0 files, so that the AUTOMATIC level-0 compaction becomes due ----
